@@ -1,7 +1,7 @@
 _COMMON_RULE = ('case = (consumer program, producer script, schedule) run on the UNMODIFIED threadediter.h under the controlled '
                 'scheduler: programs over {Next-hold, Recycle i, Next()/Value(), BeforeFirst, Destroy} for 1-2 consumer threads, '
                 'producer lengths 0..4, capacities 1..3; every program: seeded PCT + random schedules incl. spurious wake-ups; a '
-                'seeded selection of programs (all in the thorough tier): every schedule with <= 2 (quick) / <= 3 (thorough) '
+                'seeded selection of programs (8 quick / 40 thorough): every schedule, up to a cap per program, with <= 2 (quick) / <= 3 (thorough) '
                 'preemptions at model granularity (one decision per critical section / unlocked synchronisation operation), '
                 '<= 1 preemption + 1 spurious wake-up, and, for the oracles alone, schedules that preempt at EVERY shim operation '
                 '("fine" cases, no model lines); after every model-level step the implementation\'s (queue size, free cells, '
